@@ -3,7 +3,7 @@
     Model: Model/Loop.v.  [passes c o]: the slowest sample of round [o], in
     whole multiples of the precision, exceeds 100; [first_pass c l]: index of
     the first such round of [l]; [pow2 j] = 2^j. *)
-From DivanV Require Import Base.Res Generated.Consts Model.Timestamp Model.Loop Proofs.Loop Proofs.LoopProps.
+From DivanV Require Import Base.Res Generated.Consts Model.Timestamp Model.Loop Proofs.Loop Proofs.LoopProps Proofs.LoopTotal Proofs.LoopSb.
 Local Open Scope N_scope.
 
 (** Obligations on the generated constants: threshold `<= 100`, doubling. *)
@@ -79,3 +79,32 @@ Theorem C19_max_time_covers_tuning : forall c init hist out,
   (forall j, c_max c <= elapsed_after c init hist j -> (rounds_of (out_state out) <= j)%nat).
 Proof. exact max_time_covers_tuning. Qed.
 Print Assumptions C19_max_time_covers_tuning.
+
+(** Guard: the doubling is a checked u32 multiplication.  A history of at most
+    31 rounds never overflows it (sizes stay below 2^31 when doubled); 32 rounds
+    that never pass the threshold do. *)
+Theorem C19_no_overflow_below_2_31 : forall c init hist,
+  c_test c = false -> c_freq c <> 0 -> init < 2 ^ 64 ->
+  (forall o, In o hist -> wf_round o) -> (c_size c = None -> c_prec c <> 0) ->
+  (length hist <= 31)%nat ->
+  exists out, bench_loop c init hist = Ok out.
+Proof. exact loop_total_31. Qed.
+Print Assumptions C19_no_overflow_below_2_31.
+
+Theorem C19_doubling_overflows_example :
+  bench_loop ex_tune_cfg 0 (repeat [ex_raw 0 1] 32) = Panic Overflow.
+Proof. exact doubling_overflows. Qed.
+Print Assumptions C19_doubling_overflows_example.
+
+(** The boolean specification used by the violation search ([c19_sb]: size
+    sequence, kept samples equal to those of the kept rounds, counts and
+    allocation keys within the kept samples, the round rule, the figures) holds
+    of the model's own output for every history. *)
+Theorem C19_model_sb : forall c init hist out t s,
+  c_test c = false ->
+  bench_loop c init hist = Ok out ->
+  seen_of_outcome t out = Ok s ->
+  N.of_nat (length (st_samples (s_store (out_state out)))) < 2 ^ 32 ->
+  c19_sb c init (firstn (rounds_of (out_state out)) hist) s = true.
+Proof. exact c19_model_sb. Qed.
+Print Assumptions C19_model_sb.
